@@ -329,11 +329,16 @@ func BuildExpr(expr ast.Expr) (string, string, string) {
 	return "", "", ""
 }
 
-func getFieldName(field *ast.Field) string {
+// getFieldNames: `X, Y int` is one field declaration with two names; an embedded field or an unnamed parameter has none
+func getFieldNames(field *ast.Field) []string {
 	if len(field.Names) < 1 {
-		return ""
+		return []string{""}
 	}
-	return field.Names[0].Name
+	var names []string
+	for _, name := range field.Names {
+		names = append(names, name.Name)
+	}
+	return names
 }
 
 func AddStructType(currentNodeName string, x *ast.StructType, currentFile *core_domain.CodeContainer, dsMap map[string]*core_domain.CodeDataStruct) {
@@ -345,15 +350,17 @@ func AddStructType(currentNodeName string, x *ast.StructType, currentFile *core_
 	var ioproperties []core_domain.CodeProperty
 	var calls []core_domain.CodeCall
 	for _, field := range x.Fields.List {
-		property := BuildPropertyField(getFieldName(field), field)
 		member.FileID = currentFile.FullName
-		ioproperties = append(ioproperties, *property)
+		for _, name := range getFieldNames(field) {
+			property := BuildPropertyField(name, field)
+			ioproperties = append(ioproperties, *property)
 
-		call := core_domain.CodeCall{
-			Package:  getPackageName(property.TypeValue, "", currentFile.Imports),
-			NodeName: property.TypeValue,
+			call := core_domain.CodeCall{
+				Package:  getPackageName(property.TypeValue, "", currentFile.Imports),
+				NodeName: property.TypeValue,
+			}
+			calls = append(calls, call)
 		}
-		calls = append(calls, call)
 	}
 
 	// todo : when dsMap key-value create it
